@@ -11,7 +11,7 @@
    `_partial` statements are now proved at full strength and the former `_refuted` witnesses
    are kept as regression lemmas; so is the witness of K13 (timezone: False rejected after the
    clamp was introduced, repaired by 354b020). *)
-From Coq Require Import ZArith List.
+From Coq Require Import ZArith List String Ascii.
 From SFV Require Import Base RandFuncs.
 From SFV.P Require Import RandFuncsP.
 Import ListNotations. Open Scope Z_scope.
@@ -325,6 +325,161 @@ Theorem C11_between_possible_sound :
 Proof. split; [exact date_between_possible | exact datetime_between_possible]. Qed.
 Print Assumptions C11_between_possible_sound.
 
+(* ------------------------------------------------------------------ round 3: blocks rendered row by row *)
+
+(* random.choices only sees the ratios of the weights: a common positive factor changes nothing.
+   This is what allows the model to compute with integer numerators. *)
+Theorem C11_weighted_choice_scale_invariant :
+  forall k ws opts d den, 0 < k ->
+  weighted_choice (map (option_map (Z.mul k)) ws) opts d den = weighted_choice ws opts d den.
+Proof. exact weighted_choice_scale. Qed.
+Print Assumptions C11_weighted_choice_scale_invariant.
+
+(* decimal weights (12.5, 0.25 ...): whichever common denominator 10^Q they are brought to *)
+Theorem C11_common_denominator_irrelevant :
+  forall ws Q opts d den, (max_places ws <= Q)%nat ->
+  weighted_choice (scale_with Q ws) opts d den = weighted_choice (scale_weights ws) opts d den.
+Proof. exact common_denominator_irrelevant. Qed.
+Print Assumptions C11_common_denominator_irrelevant.
+
+(* A `random_choice` block whose probabilities are literals or formulas of the row and whose picks
+   are labels or formulas of the row, rendered for the row with key k: if the probabilities AS
+   EVALUATED FOR THIS ROW all parse (parse_weight_str) to numbers >= 0, not all 0, then for every
+   draw the result is the pick (as evaluated for this row) of an item at some position i whose
+   probability text, as evaluated for this row, parses to a POSITIVE number.  The weights of
+   another row (an earlier rendering of the same block) play no role: run_block is a function
+   of the block, the row key and the draw. *)
+Theorem C11_block_row_never_zero_weight :
+  forall (b : block) k ds num den,
+  parse_weights (block_toks k b) = Ok (map Some ds) ->
+  Forall (fun d => 0 <= dnum d) ds -> Exists (fun d => 0 < dnum d) ds -> 0 <= num < den ->
+  exists i it e d o,
+    run_block b k (Some num) den = Ok o /\ nth_error b i = Some it /\ o = eval_pexpr k (snd it) /\
+    fst it = Some e /\ parse_weight_str (eval_wexpr k e) = Ok d /\ nth_error ds i = Some d /\ 0 < dnum d.
+Proof. exact block_row_support. Qed.
+Print Assumptions C11_block_row_never_zero_weight.
+
+(* all the weight of the row on item i0 (e.g. 0 / 100 / 0 in this row, 100 / 0 / 0 in the next):
+   that item's pick, for every draw *)
+Theorem C11_block_row_single_weight :
+  forall (b : block) k ds num den i0,
+  parse_weights (block_toks k b) = Ok (map Some ds) ->
+  Forall (fun d => 0 <= dnum d) ds -> 0 <= num < den ->
+  (exists d, nth_error ds i0 = Some d /\ 0 < dnum d) ->
+  (forall j d, nth_error ds j = Some d -> 0 < dnum d -> j = i0) ->
+  exists it, nth_error b i0 = Some it /\ run_block b k (Some num) den = Ok (eval_pexpr k (snd it)).
+Proof. exact block_row_single. Qed.
+Print Assumptions C11_block_row_single_weight.
+
+(* ------------------------------------------------------------------ round 3: the text of a weight *)
+
+(* what parse_weight_str reads from a probability written as a string: blanks, optional sign,
+   integer digits, optional point and fraction digits, blanks, any number of trailing '%':
+   sign * (the digits read as one number) / 10^(number of fraction digits); same numeral written
+   as a YAML / Python float.  In particular the weight is 0 iff all digits are 0. *)
+Theorem C11_weight_text_meaning :
+  forall a b k sg ip fp, decimal_ok ip fp ->
+  parse_weight_str (WStr (string_of_list_ascii
+     (repeat " "%char a ++ decimal_text sg ip fp ++ repeat " "%char b ++ repeat "%"%char k)))
+  = Ok (mkDec (sign_val sg * dval 0 (ip ++ fraction_digits fp)) (length (fraction_digits fp))) /\
+  parse_weight_str (WFlt (string_of_list_ascii (decimal_text sg ip fp)))
+  = Ok (mkDec (sign_val sg * dval 0 (ip ++ fraction_digits fp)) (length (fraction_digits fp))).
+Proof.
+  intros a b k sg ip fp H. split;
+    [exact (parse_weight_str_text a b k sg ip fp H)|exact (parse_weight_flt_text sg ip fp H)].
+Qed.
+Print Assumptions C11_weight_text_meaning.
+
+(* ------------------------------------------------------------------ round 3: the text of the bounds *)
+
+(* relative bounds (Faker's pattern, fullmatch): one optional group per unit in the order
+   y M w d h m s, each `sign digits unit`: every written group is read as sign * digits, absent
+   groups as 0 *)
+Theorem C11_relative_text_meaning :
+  forall g0 g1 g2 g3 g4 g5 g6,
+  Forall slot_ok [g0; g1; g2; g3; g4; g5; g6] ->
+  parse_rel (rel_text rel_units [g0; g1; g2; g3; g4; g5; g6])
+  = Some (map slot_val [g0; g1; g2; g3; g4; g5; g6]) /\
+  (rel_text rel_units [g0; g1; g2; g3; g4; g5; g6] <> [] ->
+   spec_of_text (string_of_list_ascii (rel_text rel_units [g0; g1; g2; g3; g4; g5; g6]))
+   = SRel (slot_z g0) (slot_z g1) (slot_z g2) (slot_z g3) (slot_z g4) (slot_z g5) (slot_z g6)).
+Proof.
+  intros g0 g1 g2 g3 g4 g5 g6 H. split.
+  - exact (parse_rel_text _ H eq_refl).
+  - exact (spec_of_text_relative g0 g1 g2 g3 g4 g5 g6 H).
+Qed.
+Print Assumptions C11_relative_text_meaning.
+
+(* a larger count of any unit never gives an earlier instant (datetime_between) or day
+   (date_between); with C11_parse_datetimespec_meaning / C11_resolve_date_meaning: the bound is
+   the clock reading + rel_seconds, resp. today + rel_days *)
+Theorem C11_relative_monotone :
+  forall y mo w d h mi s y' mo' w' d' h' mi' s',
+  y <= y' -> mo <= mo' -> w <= w' -> d <= d' -> h <= h' -> mi <= mi' -> s <= s' ->
+  rel_seconds y mo w d h mi s <= rel_seconds y' mo' w' d' h' mi' s' /\
+  rel_days y mo w d h mi s <= rel_days y' mo' w' d' h' mi' s'.
+Proof. exact rel_seconds_mono. Qed.
+Print Assumptions C11_relative_monotone.
+
+(* the day number the model computes for a calendar date: the next day of the calendar (next day
+   of the month, first of the next month, 1 January of the next year; leap years per the Gregorian
+   rule) is the next number, for every year *)
+Theorem C11_calendar_next_day :
+  forall y m d, valid_md y m d ->
+  (d < days_in_month y m -> days_of_civil y m (d + 1) = days_of_civil y m d + 1) /\
+  (d = days_in_month y m -> m < 12 -> days_of_civil y (m + 1) 1 = days_of_civil y m d + 1) /\
+  (d = days_in_month y m -> m = 12 -> days_of_civil (y + 1) 1 1 = days_of_civil y m d + 1).
+Proof. exact days_of_civil_next. Qed.
+Print Assumptions C11_calendar_next_day.
+
+(* ... and it is strictly increasing in the calendar order: bounds are compared as the user wrote them *)
+Theorem C11_calendar_monotone :
+  forall y m d y' m' d', valid_md y m d -> valid_md y' m' d' -> ymd_lt y m d y' m' d' ->
+  days_of_civil y m d < days_of_civil y' m' d'.
+Proof. exact days_of_civil_mono. Qed.
+Print Assumptions C11_calendar_monotone.
+
+(* a bound written YYYY-MM-DD is that day *)
+Theorem C11_iso_date_text_meaning :
+  forall y4 m2 d2,
+  fields_ok [(y4, 4%nat); (m2, 2%nat); (d2, 2%nat)] ->
+  valid_date (dval 0 y4) (dval 0 m2) (dval 0 d2) = true ->
+  spec_of_text (string_of_list_ascii (iso_date_text y4 m2 d2 []))
+  = SDate (days_of_civil (dval 0 y4) (dval 0 m2) (dval 0 d2)).
+Proof. exact spec_of_text_date. Qed.
+Print Assumptions C11_iso_date_text_meaning.
+
+(* a bound written YYYY-MM-DD(T| )HH:MM:SS[.f{1,6}][Z|+HH:MM|-HH:MM] denotes, for datetime_between,
+   the instant: that reading of the clock minus the written offset (no offset: UTC) *)
+Theorem C11_iso_datetime_text_instant :
+  forall c y4 m2 d2 sep h2 mi2 s2 f z,
+  fields_ok [(y4, 4%nat); (m2, 2%nat); (d2, 2%nat); (h2, 2%nat); (mi2, 2%nat); (s2, 2%nat)] ->
+  is_sep sep = true -> frac_ok f -> zone_ok z ->
+  valid_date (dval 0 y4) (dval 0 m2) (dval 0 d2) = true ->
+  valid_time (dval 0 h2) (dval 0 mi2) (dval 0 s2) = true ->
+  exists ps,
+    parse_datetimespec c (spec_of_text (string_of_list_ascii
+       (iso_date_text y4 m2 d2 (iso_time_text sep h2 mi2 s2 f z)))) = Ok ps /\
+    instant ps = (days_of_civil (dval 0 y4) (dval 0 m2) (dval 0 d2) * DAY
+                  + dval 0 h2 * 3600 + dval 0 mi2 * 60 + dval 0 s2) * US + frac_val f
+                 - match zone_val z with Some o => o * US | None => 0 end.
+Proof. exact datetime_text_instant. Qed.
+Print Assumptions C11_iso_datetime_text_instant.
+
+(* the property for bounds given as the texts the user wrote *)
+Theorem C11_datetime_between_text_bounds :
+  forall cs ce ts te tz num den ps pe,
+  parse_datetimespec cs (spec_of_text ts) = Ok ps -> parse_datetimespec ce (spec_of_text te) = Ok pe ->
+  0 <= num < den -> instant ps <= instant pe ->
+  exists v o, datetime_between cs ce (spec_of_text ts) (spec_of_text te) tz (Some num) den = Ok (v, o) /\
+              instant ps <= v <= instant pe.
+Proof.
+  intros cs ce ts te tz num den ps pe Hs He Hnum Hle.
+  destruct (datetime_between_bounds cs ce _ _ tz num den ps pe Hs He Hnum) as (_ & H).
+  destruct (H Hle) as (v & o & Hr & Hb & _). exists v, o. split; assumption.
+Qed.
+Print Assumptions C11_datetime_between_text_bounds.
+
 (* ------------------------------------------------------------------ non-vacuity *)
 
 Example C11_ex_number : random_number 1 10 3 (Some 3) = Ok 10 /\ random_number 1 10 3 (Some 0) = Ok 1
@@ -359,3 +514,31 @@ Example C11_ex_datetime_relative :   (* -30d .. +1y at the reading 2023-01-01T10
                    (SRel 0 0 0 (-30) 0 0 0) (SRel 1 0 0 0 0 0 0) (Some 0) (Some 0) 1024
   = Ok (w_10h + 250000 - 30 * 86400 * US, Some 0).
 Proof. vm_compute. reflexivity. Qed.
+
+(* the block of notes/missed/r3_C11_1: a literal 0 and two formulas alternating between 0 and 100
+   with the parity of the row: every row gets the option that carries all the weight in THAT row *)
+Example C11_ex_block_mixed :
+  let b := [(Some (WLit (WInt 0)), PLab 1);
+            (Some (WByKey [(0, WInt 100)] (WStr "0%")), PLab 2);
+            (Some (WByKey [(0, WFlt "0.0")] (WStr " +100.0 %")), PKey 1000)] in
+  run_block b 0 (Some 0) 1024 = Ok 2 /\ run_block b 0 (Some 1023) 1024 = Ok 2 /\
+  run_block b 1 (Some 0) 1024 = Ok 1001 /\ run_block b 1 (Some 1023) 1024 = Ok 1001 /\
+  run_block b 2 (Some 512) 1024 = Ok 1002.
+Proof. vm_compute. repeat split. Qed.
+
+Example C11_ex_weight_text :
+  parse_weight_str (WStr " +012.50 %%") = Ok (mkDec 1250 2) /\
+  parse_weight_str (WStr "60%") = Ok (mkDec 60 0) /\ parse_weight_str (WFlt "-0.25") = Ok (mkDec (-25) 2) /\
+  parse_weight_str (WStr "5%5") = Err (Internal "ValueError") /\ parse_weight_str (WStr "") = Err (Internal "ValueError") /\
+  scale_weights [Some (mkDec 125 1); None; Some (mkDec 25 2); Some (mkDec 3 0)] = [Some 1250; None; Some 25; Some 300].
+Proof. vm_compute. repeat split. Qed.
+
+Example C11_ex_text_bounds :
+  spec_of_text "-30d" = SRel 0 0 0 (-30) 0 0 0 /\ spec_of_text "+1y" = SRel 1 0 0 0 0 0 0 /\
+  spec_of_text "-2w+3h" = SRel 0 0 (-2) 0 3 0 0 /\ spec_of_text "+1d+1y" = SUnsup /\
+  spec_of_text "2024-02-29" = SDate 19782 /\ spec_of_text "2023-02-29" = SBad /\
+  spec_of_text "2024-02-29T10:00:00-05:00" = SStamp (mkStamp 1709200800000000 (Some (-18000))) /\
+  spec_of_text "1970-01-01 00:00:01.5Z" = SStamp (mkStamp 1500000 (Some 0)) /\
+  value_of_text "2024-02-29T15:00:00+00:00" = VDT 1709218800000000 (Some 0) /\
+  days_of_civil 1970 1 1 = 0 /\ days_of_civil 1 1 1 = -719162.
+Proof. vm_compute. repeat split. Qed.
